@@ -64,7 +64,17 @@ def strategy(tier):
     nmax = 9 if tier == "quick" else 20
     sup_pre = supcase.sup_case(nmax=nmax, kinds=("sup",), modes=("pre",), wmode="tiefree").map(lambda c: dict(c, t="sup"))
     knn = knncase.knn_case(nmax=nmax, kinds=("knn",), kmax_force=True).map(lambda c: dict(c, t="knn"))
-    return st.one_of(_sup_feat(nmax), sup_pre, knn, _after_learn(nmax))
+    # a few large tie-free training sets (deep heaps in Prim and in the competition, long conquest orders in predict)
+    big = supcase.sup_case(nmax=80, nmin=40, kinds=("sup",), modes=("pre",), wmode="tiefree").map(lambda c: dict(c, t="sup"))
+
+    @st.composite
+    def mix(draw):
+        r_ = draw(st.integers(0, 39))
+        if r_ == 0:
+            return draw(big)
+        return draw(st.one_of(_sup_feat(nmax), _sup_feat(nmax), sup_pre, knn, _after_learn(nmax)))
+
+    return mix()
 
 
 def check_learned(case):
